@@ -17,9 +17,9 @@ which is the bound ("a pass never makes the window exceed its cap") and sequenti
 up"); the implementation uses float64 (`capFloat`).
 
 Spill-over is an opt-in feature the property text does not mention; its reference semantics here is the
-documented one, per grid window: when a key enters a new grid window (and it is not the key's first
-request) its spill-over becomes 0 on the renew day, else grows by `allowed − passes in the previously
-active window`; it is added to `allowed` before scaling.
+documented one, per grid window: when a key enters a new grid window of an unchanged window size (and it is
+not the key's first request) its spill-over becomes 0 on the renew day, else grows by `allowed − passes in
+the previously active window`; a window-size change leaves it as it is; it is added to `allowed` before scaling.
 -/
 namespace LunarVerif.C09
 
@@ -37,6 +37,13 @@ def passesInWin (W idx : Nat) : List (Event κ) → Nat
   | [] => 0
   | e :: older => (if e.pass && e.t / W == idx then 1 else 0) + passesInWin W idx older
 
+/-- Events of a single-key history (most recent first) handled under window size `W` without interruption. -/
+def regimeW (W : Nat) (l : List (Event κ)) : List (Event κ) := l.takeWhile (fun p => p.wd.W == W)
+
+/-- The key's earlier events handled under the same window size as `e`, i.e. since the key's last
+    window-size change (counting starts afresh when the configured window length changes). -/
+def regime (e : Event κ) (older : List (Event κ)) : List (Event κ) := regimeW e.wd.W older
+
 /-- Reference spill-over in force for the most recent event of a single-key history (most recent first). -/
 def refSpill : List (Event κ) → Int
   | [] => 0
@@ -44,16 +51,12 @@ def refSpill : List (Event κ) → Int
     match older with
     | [] => 0
     | p :: _ =>
-      if e.t / e.wd.W == p.t / e.wd.W then refSpill older
+      if p.wd.W != e.wd.W then refSpill older                      -- window size changed: carried over as is
+      else if e.t / e.wd.W == p.t / e.wd.W then refSpill older     -- same grid window
       else if e.wd.spillOn then
         (if dayOfMonth e.t == e.wd.renewDay then 0
-         else refSpill older + e.wd.allowed - passesInWin e.wd.W (p.t / e.wd.W) older)
+         else refSpill older + e.wd.allowed - passesInWin e.wd.W (p.t / e.wd.W) (regime e older))
       else refSpill older
-
-/-- The key's earlier events handled under the same window size as `e`, i.e. since the key's last
-    window-size change (counting starts afresh when the configured window length changes). -/
-def regime (e : Event κ) (older : List (Event κ)) : List (Event κ) :=
-  older.takeWhile (fun p => p.wd.W == e.wd.W)
 
 /-- The newest event `e` of a key against the key's earlier events. -/
 def eventOk (cap : CapFn) (e : Event κ) (older : List (Event κ)) : Bool :=
@@ -78,29 +81,22 @@ def holds (cap : CapFn) (h : List (Event κ)) : Bool :=
 /-- the clock never goes back -/
 def monotone (rs : List (Req κ)) : Bool := decide (rs.Pairwise (fun a b => a.t ≤ b.t))
 
-/-- no request at an instant ≡ 0 (mod W) (and W > 0) — the complement is the class of finding F09a -/
-def boundaryFree (rs : List (Req κ)) : Bool := rs.all fun r => decide (0 < r.wd.W) && decide (r.t % r.wd.W ≠ 0)
+/-- every window size is positive (a zero window makes the code divide by zero; the plugin layer never
+    turns such a request into a limiter event) -/
+def posW (rs : List (Req κ)) : Bool := rs.all fun r => decide (0 < r.wd.W)
 
-/-- the window size of a key never changes — the complement is the class of finding F09c -/
-def constW (rs : List (Req κ)) : Bool :=
-  rs.all fun a => rs.all fun b => !(a.key == b.key) || a.wd.W == b.wd.W
-
-def admissible (rs : List (Req κ)) : Bool := monotone rs && boundaryFree rs && constW rs
+def admissible (rs : List (Req κ)) : Bool := monotone rs && posW rs
 
 def inputs (h : List (Event κ)) : List (Req κ) := h.map Event.req
 
-/-- The hypothesis of the `_partial` theorems, as a predicate on the observable history. -/
+/-- The domain of the theorems, as a predicate on the observable history: monotone clock, positive windows.
+    (Before the repairs fix F09a / fix F09c it also excluded boundary instants and window-size changes.) -/
 def clean (h : List (Event κ)) : Bool := admissible (inputs h)
 
 /-- Classifier used by the judge for a history on which `holds capExact` is false.
-    `capImpl` = the float cap.  Order: float rounding alone explains it → F09b; else a key with a
-    window-size change → F09c; else a boundary instant → F09a; else unexplained (`none`). -/
+    `capImpl` = the float cap: if float rounding alone explains the failure → F09b; else unexplained. -/
 def finding (capImpl : CapFn) (h : List (Event κ)) : Option String :=
-  if holds capImpl h then some "F09b"
-  else if !monotone (inputs h) then none
-  else if !constW (inputs h) then some "F09c"
-  else if !boundaryFree (inputs h) then some "F09a"
-  else none
+  if holds capImpl h then some "F09b" else none
 
 end
 
